@@ -802,13 +802,12 @@ def state_section(ck):
     impls = [("fmri", lambda e, V, d, t: mk_fmri(fg, e, V, d, t), ("stat", "p_value", "z_score")),
              ("labs", lambda e, V, d, t: mk_labs(lg, e, V, d, t), ("stat", "pvalue", "zscore"))]
     evalops = [(m, b) for m in "SPZ" for b in SM_BASES[:2]]
-    maxlen = ck.n(2, 3)
-    nrand = ck.n(45, 300)
+    maxlen = ck.n(3, 4)
+    nrand = ck.n(100, 600)
     nseq = 0
     for (name, mk, meths), (typ, dim) in itertools.product(impls, [("t", 1), ("F", 1), ("F", 2), ("tmin-conjunction", 2)]):
         mname = dict(zip("SPZ", meths))
-        ml = 3 if (typ == "t" or (typ == "F" and dim == 2)) else maxlen      # smallest stale-cache sequences have 3 calls
-        seqs = [list(t) for L in range(1, ml + 1) for t in itertools.product(evalops, repeat=L)]
+        seqs = [list(t) for L in range(1, maxlen + 1) for t in itertools.product(evalops, repeat=L)]
         for _ in range(nrand):
             L = int(rng.integers(3, 8))
             sq = []
@@ -930,7 +929,9 @@ def state_section(ck):
 
 
 def run(ck):
-    ck.cov["rule"] = ("fdr: exhaustive p-vectors of length <= 3 (4 thorough) over a 6-point grid + random vectors n<=16 on the "
+    ck.cov["rule"] = ("state machine: every stat/p_value/z_score call sequence of length <= 3 (4) over two baselines + random sequences with "
+                      "three baselines, scalar multiplication and addition, for both Contrast classes x {t, F1, F2, tmin}; "
+                      "fdr: exhaustive p-vectors of length <= 3 (4 thorough) over a 6-point grid + random vectors n<=16 on the "
                       "exactness lattice m*lcm(1..n)/2^40 with planted zeros/ones/ties (exact model comparison) + random float "
                       "vectors n<=60 (120) compared through the model at 1e-12; distinct by the p-vector; non-trivial when n>1")
     import time
